@@ -94,6 +94,7 @@ backend: kissat,sat
 timeout: 600
 flags: --slice-formula
 checks_off: --bounds-check --pointer-check --pointer-overflow-check --signed-overflow-check --conversion-check --div-by-zero-check --undefined-shift-check --pointer-primitive-check
+quick: no
 */
 /*@unit
 name: str_splice.ins
@@ -104,6 +105,7 @@ backend: kissat,sat
 timeout: 600
 flags: --slice-formula
 checks_off: --bounds-check --pointer-check --pointer-overflow-check --signed-overflow-check --conversion-check --div-by-zero-check --undefined-shift-check --pointer-primitive-check
+quick: no
 */
 /*@unit
 name: str_splice.tail
@@ -114,6 +116,7 @@ backend: kissat,sat
 timeout: 600
 flags: --slice-formula
 checks_off: --bounds-check --pointer-check --pointer-overflow-check --signed-overflow-check --conversion-check --div-by-zero-check --undefined-shift-check --pointer-primitive-check
+quick: no
 */
 /*@unit
 name: str_splice.negcnt
@@ -171,6 +174,7 @@ backend: kissat,sat
 timeout: 600
 flags: --slice-formula
 checks_off: --bounds-check --pointer-check --pointer-overflow-check --signed-overflow-check --conversion-check --div-by-zero-check --undefined-shift-check --pointer-primitive-check
+quick: no
 */
 /*@unit
 name: str_splice_from_ptr.ins
@@ -181,6 +185,7 @@ backend: kissat,sat
 timeout: 600
 flags: --slice-formula
 checks_off: --bounds-check --pointer-check --pointer-overflow-check --signed-overflow-check --conversion-check --div-by-zero-check --undefined-shift-check --pointer-primitive-check
+quick: no
 */
 /*@unit
 name: str_splice_from_ptr.tail
@@ -191,6 +196,7 @@ backend: kissat,sat
 timeout: 600
 flags: --slice-formula
 checks_off: --bounds-check --pointer-check --pointer-overflow-check --signed-overflow-check --conversion-check --div-by-zero-check --undefined-shift-check --pointer-primitive-check
+quick: no
 */
 /*@unit
 name: str_splice_from_ptr.negcnt
@@ -264,6 +270,7 @@ enforce: spif_ustr_splice
 backend: kissat,sat
 timeout: 600
 flags: --slice-formula
+quick: no
 */
 /*@unit
 name: ustr_splice.term
@@ -274,6 +281,7 @@ backend: kissat,sat
 timeout: 600
 flags: --slice-formula
 checks_off: --bounds-check --pointer-check --pointer-overflow-check --signed-overflow-check --conversion-check --div-by-zero-check --undefined-shift-check --pointer-primitive-check
+quick: no
 */
 /*@unit
 name: ustr_splice.head
@@ -284,6 +292,7 @@ backend: kissat,sat
 timeout: 600
 flags: --slice-formula
 checks_off: --bounds-check --pointer-check --pointer-overflow-check --signed-overflow-check --conversion-check --div-by-zero-check --undefined-shift-check --pointer-primitive-check
+quick: no
 */
 /*@unit
 name: ustr_splice.ins
@@ -294,6 +303,7 @@ backend: kissat,sat
 timeout: 600
 flags: --slice-formula
 checks_off: --bounds-check --pointer-check --pointer-overflow-check --signed-overflow-check --conversion-check --div-by-zero-check --undefined-shift-check --pointer-primitive-check
+quick: no
 */
 /*@unit
 name: ustr_splice.tail
@@ -304,6 +314,7 @@ backend: kissat,sat
 timeout: 600
 flags: --slice-formula
 checks_off: --bounds-check --pointer-check --pointer-overflow-check --signed-overflow-check --conversion-check --div-by-zero-check --undefined-shift-check --pointer-primitive-check
+quick: no
 */
 /*@unit
 name: ustr_splice.negcnt
@@ -314,6 +325,7 @@ backend: kissat,sat
 timeout: 600
 flags: --slice-formula
 checks_off: --bounds-check --pointer-check --pointer-overflow-check --signed-overflow-check --conversion-check --div-by-zero-check --undefined-shift-check --pointer-primitive-check
+quick: no
 */
 /*@unit
 name: ustr_splice_from_ptr.empty
@@ -341,6 +353,7 @@ enforce: spif_ustr_splice_from_ptr
 backend: kissat,sat
 timeout: 600
 flags: --slice-formula
+quick: no
 */
 /*@unit
 name: ustr_splice_from_ptr.term
@@ -351,6 +364,7 @@ backend: kissat,sat
 timeout: 600
 flags: --slice-formula
 checks_off: --bounds-check --pointer-check --pointer-overflow-check --signed-overflow-check --conversion-check --div-by-zero-check --undefined-shift-check --pointer-primitive-check
+quick: no
 */
 /*@unit
 name: ustr_splice_from_ptr.head
@@ -361,6 +375,7 @@ backend: kissat,sat
 timeout: 600
 flags: --slice-formula
 checks_off: --bounds-check --pointer-check --pointer-overflow-check --signed-overflow-check --conversion-check --div-by-zero-check --undefined-shift-check --pointer-primitive-check
+quick: no
 */
 /*@unit
 name: ustr_splice_from_ptr.ins
@@ -371,6 +386,7 @@ backend: kissat,sat
 timeout: 600
 flags: --slice-formula
 checks_off: --bounds-check --pointer-check --pointer-overflow-check --signed-overflow-check --conversion-check --div-by-zero-check --undefined-shift-check --pointer-primitive-check
+quick: no
 */
 /*@unit
 name: ustr_splice_from_ptr.tail
@@ -381,6 +397,7 @@ backend: kissat,sat
 timeout: 600
 flags: --slice-formula
 checks_off: --bounds-check --pointer-check --pointer-overflow-check --signed-overflow-check --conversion-check --div-by-zero-check --undefined-shift-check --pointer-primitive-check
+quick: no
 */
 /*@unit
 name: ustr_splice_from_ptr.negcnt
@@ -391,6 +408,7 @@ backend: kissat,sat
 timeout: 600
 flags: --slice-formula
 checks_off: --bounds-check --pointer-check --pointer-overflow-check --signed-overflow-check --conversion-check --div-by-zero-check --undefined-shift-check --pointer-primitive-check
+quick: no
 */
 #include "str.h"
 
